@@ -109,8 +109,9 @@ impl Rule for AppendTextComment {
                     .append_comment(block.mutate_first_token(), text);
             }
             AppendLocation::End => {
+                // after everything, including a final semicolon or type annotation
                 self.location
-                    .append_comment(block.mutate_last_token(), text);
+                    .append_comment(block.mutate_final_token(), text);
             }
         }
 
